@@ -163,6 +163,13 @@ def run_op(op, env):
             _, var, text, start, kw, sem = op
             p = env[var]
             return ('ok', canon(p.parse(text, start=start, semantics=SEMS[sem](), **kw)))
+        if kind == 'bparse':
+            # the grammar given as a Text object (compile accepts str | Text)
+            from tatsu.input.buffer import Buffer
+            from tatsu.input.textlines import TextLines
+            _, g, text, how = op
+            m = tatsu.compile(Buffer(GRAMS[g]) if how == 'buffer' else TextLines(GRAMS[g]))
+            return ('ok', m.pretty(), canon(m.parse(text)))
         if kind == 'jsonload':
             from tatsu.peg import Grammar
             m = env[op[1]]
@@ -325,7 +332,10 @@ def gen_history(rnd):
             g = parsers[var]
             op = ('gparse', var, pick_text(rnd, g), rnd.choice(STARTS.get(g, [None]) + [None, None]), rnd.choice([{}, {}, {'ignorecase': True}, {'parseinfo': True}, {'whitespace': ''}, {'asmodel': True}]),
                   rnd.choice(['none', 'none', 'A', 'B']))
-        elif c < 0.94 and models:
+        elif c < 0.93:
+            g = rnd.choice(list(GRAMS))
+            op = ('bparse', g, pick_text(rnd, g), rnd.choice(['buffer', 'textlines']))
+        elif c < 0.945 and models:
             var = rnd.choice(list(models))
             op = ('jsonload', var, pick_text(rnd, models[var]) if rnd.random() < 0.5 else None)
         elif c < 0.96:
@@ -404,14 +414,16 @@ def _short(x):
 
 
 # ------------------------------------------------------------------ threads
-def check_threads(g, nthreads, lists, kw):
-    """runs in a forked child (so the switch interval and thread state do not leak)"""
+def check_threads(g, nthreads, lists, kw, threads_first=False, compile_asmodel=False):
+    """runs in a forked child (so the switch interval and thread state do not leak).  With threads_first the threads are the
+    first users of the freshly compiled model (lazy one-time work happens under contention) and the sequential reference
+    is computed afterwards"""
     def child():
         import threading
 
         import tatsu
         from tatsu.exceptions import ParseException
-        m = tatsu.compile(GRAMS[g], name='T10')
+        m = tatsu.compile(GRAMS[g], name='T10', asmodel=compile_asmodel)
 
         def one(t):
             try:
@@ -420,7 +432,8 @@ def check_threads(g, nthreads, lists, kw):
                 return ('fail', type(e).__name__)
             except Exception as e:
                 return ('EXC', type(e).__name__, str(e)[:80])
-        seq = [[one(t) for t in lst] for lst in lists]
+        if not threads_first:
+            seq = [[one(t) for t in lst] for lst in lists]
         out = [None] * nthreads
         sys.setswitchinterval(1e-6)
         barrier = threading.Barrier(nthreads)
@@ -433,6 +446,9 @@ def check_threads(g, nthreads, lists, kw):
             t.start()
         for t in ths:
             t.join()
+        if threads_first:
+            sys.setswitchinterval(0.005)
+            seq = [[one(t) for t in lst] for lst in lists]
         bad = [(i, j, out[i][j], seq[i][j]) for i in range(nthreads) for j in range(len(lists[i])) if out[i][j] != seq[i][j]]
         return bad[:3]
     r, w = os.pipe()
@@ -467,14 +483,19 @@ def run_shard(sh, kind, n):
     # NOTE this process must stay pristine: it never calls the tatsu API itself
     if kind == 'threads':
         def tbody(rnd):
-            g = rnd.choice(['g1', 'g2', 'g4', 'g7', 'g3'])
+            g = rnd.choice(['g1', 'g2', 'g4', 'g7', 'g3', 'g2', 'g6', 'g9', 'g8'])
             nth = rnd.randint(2, 8)
-            lists = [[rnd.choice(TEXTS) for _ in range(rnd.randint(3, 10))] for _ in range(nth)]
-            kw = rnd.choice([{}, {}, {'parseinfo': True}, {'asmodel': True} if g == 'g2' else {}])
-            d = check_threads(g, nth, lists, kw)
-            sh.case(('threads', g, nth, repr(lists), repr(kw)), True, ['threads', f'threads:{nth}'], sample=dict(grammar=g, threads=nth, inputs=lists[0][:3]))
+            lists = [[pick_text(rnd, g) for _ in range(rnd.randint(3, 10))] for _ in range(nth)]
+            typed = g in ('g2', 'g6', 'g9')
+            kw = rnd.choice([{}, {}, {'parseinfo': True}, {'asmodel': True} if typed else {}])
+            threads_first = rnd.random() < 0.6
+            compile_asmodel = typed and rnd.random() < 0.5
+            d = check_threads(g, nth, lists, kw, threads_first, compile_asmodel)
+            sh.case(('threads', g, nth, repr(lists), repr(kw), threads_first, compile_asmodel), True,
+                    ['threads', f'threads:{nth}'] + (['threads:first-use'] if threads_first else []) + (['threads:model-building'] if compile_asmodel or kw.get('asmodel') else []),
+                    sample=dict(grammar=g, threads=nth, inputs=lists[0][:3]))
             if d:
-                sh.fail(d['bucket'], dict(kind='threads', g=g, nthreads=nth, lists=lists, kw=kw), d)
+                sh.fail(d['bucket'], dict(kind='threads', g=g, nthreads=nth, lists=lists, kw=kw, threads_first=threads_first, compile_asmodel=compile_asmodel), d)
         hyp_run(sh, gen.rnds(), tbody, n, label='threads')
         return
 
@@ -490,7 +511,7 @@ def run_shard(sh, kind, n):
 
 def replay(case):
     if case.get('kind') == 'threads':
-        return check_threads(case['g'], case['nthreads'], case['lists'], case['kw'])
+        return check_threads(case['g'], case['nthreads'], case['lists'], case['kw'], bool(case.get('threads_first')), bool(case.get('compile_asmodel')))
     return check_history([tuple(op) for op in case['history']])
 
 
